@@ -18,7 +18,9 @@ class C08Check(C01Check):
     rename = {"ENGINE:endstate-mismatch": "C08:load-mismatch"}
     rule = ("storage-heavy generated worlds: sequences of SSTORE/SLOAD/TSTORE/TLOAD over Solidity-layout location expressions "
             "(scalars, mapping(k), nested mappings, keccak(slot)+i arrays, packed 20-byte keys, +offset struct members, raw "
-            "symbolic slots in the generic layout) with concrete and symbolic keys from small colliding domains, in both "
+            "symbolic slots in the generic layout) with concrete and symbolic keys from small colliding domains, optionally with "
+            "symbolic initial storage (the reference then takes the first-read values from halmos' trace under the model and a "
+            "constant where an unconstrained value is required is a violation), in both "
             "--storage-layout modes, under branching-solver unknowns (which decide whether Exec.select may skip a store). "
             "Oracle: lock-step comparison with the reference EVM (real keccak) of every SLOAD/TLOAD value and slot, in program "
             "order, for a model of each reported path and for generated inputs incl. ones making two symbolic keys equal; "
@@ -27,9 +29,13 @@ class C08Check(C01Check):
     bias = dict(storage=True, mapping=True, hashing=True, transient=True, calls=False, creates=False, logs=False,
                 copyops=False, msize=False, exp=False, mulmod=False, balance_reads=False, value_calls=False,
                 n_bases=2, env=False, signed=False, max_stmts=7, max_expr_depth=1)
-    kwargs = {"n_sigmas": 8, "check_pruned": False, "small_keys": True}
+    kwargs = {"n_sigmas": 8, "check_pruned": False, "small_keys": True, "symbolic_storage_rate": 0.3}
+    oracle_prefixes = ("ENGINE:endstate-mismatch", "ENGINE:initial-not-unconstrained")
+    rename = {"ENGINE:endstate-mismatch": "C08:load-mismatch", "ENGINE:initial-not-unconstrained": "C08:initial-not-unconstrained"}
 
     def refine(self, v):
+        if v["oracle"] == "ENGINE:initial-not-unconstrained":
+            return v
         if not (set(v.get("kinds", [])) & STORAGE_KINDS):
             return None
         if v.get("quirk"):
